@@ -1721,7 +1721,8 @@ Examples:
         def func(x, *args, **kwds):
             xtype = type(x)
             x = asarray(list(x)) #XXX: faster to use array(x, copy=True) ?
-            x[[i for i in index if i < len(x)]] = target
+            at = [(i,j) for (j,i) in enumerate(index) if i < len(x)]
+            x[[i for (i,j) in at]] = [target[j] for (i,j) in at] if hasattr(target, '__len__') else target
             if not type(x) is xtype: x = xtype(x) #XXX: xtype(x.tolist()) ?
             return f(x, *args, **kwds)
         func.__wrapped__ = f   #XXX: getattr(f, '__wrapped__', f) ?
